@@ -362,6 +362,35 @@ Section DocLevel.
   Qed.
 
   (* and parser_work does return for such a document, given the fuel *)
+  (* a document of the class changes nothing of the parser state but the
+     list of unknowns; in particular no diagnostic (error mark) is recorded *)
+  Theorem parser_work_class_frame fuel st latex r :
+    doc_in_class st latex = true ->
+    parser_work T (exec T rd fuel) st latex = Ok r ->
+    frame st (fst r) /\ diags (fst r) = diags st.
+  Proof.
+    unfold doc_in_class. intros Hd H. unfold parser_work in H.
+    destruct (scan P latex) as [toks ds]. cbn [fst] in *.
+    apply andb_true_iff in Hd. destruct Hd as [Hd Hb].
+    apply andb_true_iff in Hd. destruct Hd as [Hds Hsk].
+    destruct ds; [|discriminate]. cbn [add_diags fold_left] in H.
+    assert (Hs : skip_regions T (S (length toks)) (upd_latex st latex) latex toks
+                 = (upd_latex st latex, toks)).
+    { cbn [skip_regions]. rewrite find_index_none; [reflexivity|].
+      apply Forall_forall. intros t Ht. rewrite forallb_forall in Hsk.
+      apply negb_true_iff. apply Hsk. exact Ht. }
+    rewrite Hs in H. unfold expand_fresh in H.
+    destruct (exec T rd fuel (TSeq toks None []) (upd_latex st latex)) as [[st1 an]| | |] eqn:Ee;
+      try discriminate.
+    apply bclb_ok in Hb.
+    assert (Hb' : bcl T (macros (upd_latex st latex)) toks) by exact Hb.
+    pose proof (exec_args_frame T rd Htab fuel toks [] _ _ _ Hb' Ee) as Fr.
+    cbn [rbind fst snd] in H. destruct an; inversion H; subst r. cbn [fst].
+    assert (F : frame st (upd_latex st1 (cur_latex st))).
+    { unfold frame in *. rewrite Fr. destruct st; reflexivity. }
+    split; [exact F|]. unfold frame in F. rewrite F. reflexivity.
+  Qed.
+
   Theorem parser_work_class_total st latex :
     doc_in_class st latex = true ->
     exists r, parser_work T (exec T rd (S (mu (macros st) (fst (scan P latex))))) st latex = Ok r.
